@@ -95,6 +95,12 @@ solver_state_t base_solver_gs_t<tsampler, tpreconditioner>::do_minimize(const fu
         }
     }
 
+    // NB: the budget may end the loop right after a line-search step to a point that was never tested for validity
+    if (!state.valid())
+    {
+        state.status(solver_status::failed);
+    }
+
     state.update_calls();
     return state;
 }
